@@ -214,6 +214,8 @@ func (p c13) scenario(r *core.Result, s c13scn, seed uint64) {
 			sr.Close(20 * time.Second)
 		}
 	}()
+	// what the serving (idle) server itself runs: the session must not add anything that outlives it
+	servingG := rig.StableLimeGoroutineCount("inProcessTransportListener).newClient")
 	ctx, cancel := context.WithTimeout(context.Background(), 120*time.Second)
 	defer cancel()
 	// 'backlog' over a socket: a man-in-the-middle with a small window towards the server, which for a moment stops
@@ -679,6 +681,17 @@ func (p c13) scenario(r *core.Result, s c13scn, seed uint64) {
 		fail("senders-blocked", "a sender is still blocked in a Send call long after the session ended")
 	}
 	if !serverClosed {
+		// the server lives on: whatever belonged to the session has to be gone without the server being closed
+		if leftServing := rig.WaitLimeGoroutines(servingG, 12*time.Second, "inProcessTransportListener).newClient"); len(leftServing) > servingG {
+			fail("goroutines-left-while-serving", "%d lime-owned goroutines while the server was idle before the session, %d after the session ended and both sides closed their channels (server still serving): %v", servingG, len(leftServing), rig.Sites(leftServing))
+			if len(r.Log) == 0 {
+				for _, g := range leftServing {
+					r.Log = append(r.Log, strings.Split(g.Raw, "\n")...)
+				}
+			}
+		} else {
+			r.Count("census_clean_while_serving", 1)
+		}
 		sr.Close(20 * time.Second)
 		serverClosed = true
 	}
